@@ -315,7 +315,7 @@ def run(ctx):
     seen, nontrivial = set(), 0
     dist = {"kind": {}, "collection_size": {}, "page_size_vs_size": {}, "order": {}, "filter_in_cursor": {}, "cursor_filter_form": {},
             "token_outcome": {}, "endpoint": {}, "step_outcome": {}, "pages_per_walk": {}}
-    positions = 0
+    positions = resumed = 0
 
     def bump(d, k):
         dist[d][str(k)] = dist[d].get(str(k), 0) + 1
@@ -339,7 +339,8 @@ def run(ctx):
             bump("filter_in_cursor", bool(inp.get("body")))
             np_ = len(out.get("pages", []))
             bump("pages_per_walk", "1" if np_ <= 1 else "2-5" if np_ <= 5 else "6-20" if np_ <= 20 else ">20")
-            positions += np_ + len(out.get("prevs", []))
+            positions += np_ + len(out.get("prevs", [])) + len(out.get("backwalk", []))
+            resumed += sum(len((e.get("resume") or {}).get("pages", [])) for e in out.get("prevs", []))
             nt = np_ >= 2
         elif kind in ("colstep", "offstep"):
             bump("step_outcome", "panic" if "panic" in out else out.get("res"))
@@ -355,6 +356,7 @@ def run(ctx):
         elif kind == "http":
             bump("endpoint", inp["endpoint"])
             positions += len(out.get("steps", [])) + len(out.get("prevs", []))
+            resumed += sum(len(e.get("resume") or []) for e in out.get("prevs", []))
             nt = len(out.get("steps", [])) >= 2
         if nt and h not in seen:
             nontrivial += 1
@@ -362,6 +364,7 @@ def run(ctx):
     ctx.cov["evaluations"] = len(inputs)
     ctx.cov["distinct_nontrivial"] = nontrivial
     ctx.cov["positions_visited"] = positions
+    ctx.cov["pages_of_walks_resumed_after_previous"] = resumed
     ctx.cov["rule"] = ("grid: every collection size 0..40 (ids with gaps, stored unordered) x page sizes {1,2,n-1,n,n+1,100} x both orders x "
                        "{UsingColumn,UsingOffset}, each walk visiting every position (next, previous, next-of-previous, the walk resumed with Iterate from every page reached through previous, the way back); plus seeded "
                        "random walks (negative / >2^64 ids, a caller WHERE, a filter and a point in time inside the cursor), single evaluations of "
